@@ -70,6 +70,11 @@ impl ProofOfSignatureKnowledge for PokSignatureProof {
             points.push(*y);
         }
 
+        // one response per hidden message plus the two for a_bar and b_bar;
+        // sum_of_products silently stops at the shorter slice
+        if self.proof.len() != points.len() + 2 {
+            return Err(Error::General("Invalid proof - response count"));
+        }
         points.push(self.a_bar);
         points.push(self.b_bar);
         points.push(lhs);
